@@ -33,6 +33,7 @@ theorem stepAns_none {s : MState} {j : Job} {l : Lbl} (h : stepAns s j l = none)
   · simp at h
   · split at h <;> simp at h
   · split at h <;> simp at h
+  · split at h <;> simp at h
   · simp at h
 
 /-- a program without reply steps runs to its end -/
